@@ -165,15 +165,19 @@ Definition ascii_eq_fold (a b : str) : bool := str_eqb (lower_str a) (lower_str 
 Definition gzip_decoded (req_method : str) (req_h : headers) (resp_h : headers) : bool :=
   asks_gzip req_method req_h && ascii_eq_fold (hget K_ce resp_h) (bs "gzip").
 
-(** Headers the client receives, framing headers aside; the second component
-    says whether the server adds a sniffed Content-Type, the third whether it
-    adds Date. *)
-Definition client_headers (gz : bool) (body_nonempty : bool) (raw : headers) : headers * bool * bool :=
+(** Headers the client receives, framing headers aside.  The proxy-side
+    net/http server suppresses Content-Type on a 304.  The second component says
+    whether that server adds a sniffed Content-Type (when the response length is
+    not known up front ReverseProxy flushes the header from a timer goroutine
+    that races with the first body write, so the sniffing may or may not happen:
+    the correspondence accepts both in that case), the third whether it adds Date. *)
+Definition client_headers (status : N) (gz : bool) (body_nonempty : bool) (raw : headers) : headers * bool * bool :=
   let h0 := resp_canonical raw in
   let h1 := if gz then hdel K_ce h0 else h0 in
   let h2 := hdel K_cl (remove_hop_by_hop h1) in
-  let sniff := negb (hhas K_ct h2) && body_nonempty && is_empty (hget K_ce h2) in
-  (h2, sniff, negb (hhas K_date h2)).
+  let h3 := if status =? 304 then hdel K_ct h2 else h2 in
+  let sniff := negb (hhas K_ct h3) && body_nonempty && is_empty (hget K_ce h3) in
+  (h3, sniff, negb (hhas K_date h3)).
 
 (** ** Multimap equality: same values, in order, for every key *)
 Definition keys_of (h : headers) : list str := map fst h.
